@@ -256,7 +256,7 @@ func (w *walker) step() {
 				if inDB[t.Name] {
 					v = nil
 				}
-				add(0.8, sim.Action{Op: "earlystop", Key: t.Name, V: v})
+				add(7, sim.Action{Op: "earlystop", Key: t.Name, V: v})
 			}
 		}
 	}
